@@ -1044,7 +1044,7 @@ impl Check for C15Check {
         CheckInfo {
             id: "C15",
             level: "exploration",
-            rule: "case = one hidden ground-truth typing over 2..10 classes (words of every usage and widths {?,8,32,64,128,160,256}, dynamic bytes, mappings, dynamic and fixed arrays, packed words of one or two sized fields, nesting <= 3) with 1..3 variables per class; compatible sets emit, per class, 1..5 weakenings of the true type (usage at or below it in the documented order, width kept or dropped, Any, the same constructor over existing or fresh-but-equated component variables) plus a spanning tree of equalities; contradictory sets (every second case) add exactly one judgement from the property's list to one class (a different known width, an incompatible usage, a mapping against an array or a sized word, a fixed array of a different 256-bit length); 1 in 32 sets is instead a type nested 12..61 levels deep described twice with different variables, only the outermost pair declared equal (one level is resolved per round of the unifier); 1 array or mapping class in 24 sets carries 260..460 pieces (a third of those 1 050..1 350, all on one variable), three components in four fresh variables and the rest shared between pieces, half of the fresh ones tied only by the constructor merge in compatible sets; fixed-array lengths include 0, 1 and 2^200+3; dynamic-bytes classes are also described by string-header packed encodings; each set is unified under 8 schedules rotating through nine equivalent delivery modes (plain, state used twice, one-sided equalities, through TypeChecker::unify, staged with a unification in between through the free function or the checker, infer_many, cloned state) and compared with the reference model; in the staged-through-the-checker mode the layout returned for three slots equated with the first three variables must equal the layout of the same evidence read once. evaluations = unifier runs; non-trivial = the run folded at least one class with >= 2 pieces; distinct = distinct (set, fold-order digest), counted with a hash set",
+            rule: "case = one hidden ground-truth typing over 2..10 classes (words of every usage and widths {?,8,32,64,128,160,256}, dynamic bytes, mappings, dynamic and fixed arrays, packed words of one or two sized fields, nesting <= 3) with 1..3 variables per class; compatible sets emit, per class, 1..5 weakenings of the true type (usage at or below it in the documented order, width kept or dropped, Any, the same constructor over existing or fresh-but-equated component variables) plus a spanning tree of equalities; contradictory sets (every second case) add exactly one judgement from the property's list to one class (a different known width, an incompatible usage, a mapping against an array or a sized word, a fixed array of a different 256-bit length); 1 in 16 sets is instead one packed word of 2..6 adjacent sized fields described by several views (a complete fine listing plus 1..3 packed encodings whose spans are single fields or runs of adjacent fields: a partition of a sub-range, or 2..3 runs that may overlap or coincide), compared after flattening spans whose own type resolved to a packed encoding; 1 in 32 sets is instead a type nested 12..61 levels deep described twice with different variables, only the outermost pair declared equal (one level is resolved per round of the unifier); 1 array or mapping class in 24 sets carries 260..460 pieces (a third of those 1 050..1 350, all on one variable), three components in four fresh variables and the rest shared between pieces, half of the fresh ones tied only by the constructor merge in compatible sets; fixed-array lengths include 0, 1 and 2^200+3; dynamic-bytes classes are also described by string-header packed encodings; each set is unified under 8 schedules rotating through nine equivalent delivery modes (plain, state used twice, one-sided equalities, through TypeChecker::unify, staged with a unification in between through the free function or the checker, infer_many, cloned state) and compared with the reference model; in the staged-through-the-checker mode the layout returned for three slots equated with the first three variables must equal the layout of the same evidence read once. evaluations = unifier runs; non-trivial = the run folded at least one class with >= 2 pieces; distinct = distinct (set, fold-order digest), counted with a hash set",
             assumptions: &[
                 "reference model: congruence closure over declared equalities + the word lattice documented at WordUse::merge (bytes below everything; numeric below unsigned, signed, address; unsigned below address; bool, selector, function only above bytes); known width beats unknown",
                 "dynamic array vs word and dynamic bytes vs word are not injected as contradictions: the code treats them as compatible on purpose and the property does not list them",
